@@ -254,9 +254,12 @@ def decide(pid, tier, seed, task_results, bounded, t0, design_ref, extra_assumpt
     kinds = {}
     for o in obs:
         kinds[o.get("kind", "goal")] = kinds.get(o.get("kind", "goal"), 0) + 1
+    excused_obs = [o for o in refuted + undecided if excused(o)]
     coverage = {
-        "obligations": n,
+        # obligations excused by a listed known finding (while its witness still reproduces) are reported separately
+        "obligations": n - len(excused_obs),
         "discharged": len(proved),
+        "excused_by_known_findings": [o["name"] for o in excused_obs],
         "refuted": len(refuted),
         "undecided": len(undecided),
         "checker_cmd": f"bin/check {pid} {tier}",
